@@ -5,7 +5,7 @@
    first pass returns (2/11, 6/11, 9/11) and its L1 change 28/33 is below 3 * (1/3). *)
 From Coq Require Import List ZArith QArith Reals Lra Lia.
 From GV Require Import Base.Outcome Base.AMap Model.GState Model.Creation Model.Query Model.Eigen Spec.History.
-From GV Require Import Proofs.WFDefs Proofs.HistoryOk Proofs.EigenOk Proofs.EigenReal Proofs.EigenMatrix Proofs.EigenWF.
+From GV Require Import Proofs.WFDefs Proofs.HistoryOk Proofs.EigenOk Proofs.EigenReal Proofs.EigenMatrix Proofs.EigenWF Proofs.EigenBound.
 Import ListNotations.
 Open Scope R_scope.
 
@@ -15,9 +15,6 @@ Lemma Zltb_asym : forall x y, Z.ltb x y = true -> Z.ltb y x = false.
 Proof. intros x y H. apply Z.ltb_lt in H. apply Z.ltb_ge. lia. Qed.
 Lemma Zltb_total : forall x y, Z.ltb x y = false -> Z.ltb y x = false -> x = y.
 Proof. intros x y H1 H2. apply Z.ltb_ge in H1. apply Z.ltb_ge in H2. lia. Qed.
-
-Definition SumLawsR : SumLaws NumR.
-Proof. apply (mkSumLaws NumR); cbn; intros; ring. Defined.
 
 Definition ex_sp3 := mkspecs false DErr MCreate false true SErr.
 Definition ex_g3 : gstate Z Z :=
@@ -58,6 +55,10 @@ Example ex_g3_matrix :
   map (fun u => map (fun v => aent Z.eqb Z.ltb NumR ex_g3 true u v) [0%Z; 1%Z; 2%Z]) [0%Z; 1%Z; 2%Z]
   = [[0; 1; 0]; [1; 0; 4]; [0; 4; 4]].
 Proof. reflexivity. Qed.
+
+(* the constant of the next-step bound on this graph: Wtot = 14, so L = (3 + 1) * (1 + 14) = 60 *)
+Example ex_g3_Wtot : Wtot Z.eqb Z.ltb ex_g3 true = 14.
+Proof. unfold Wtot. cbv -[Rplus IZR]. ring. Qed.
 
 (* every hypothesis of the deepened C18 theorems holds of this graph and run *)
 Example ex_g3_nonvacuous :
